@@ -758,6 +758,11 @@ class Sim:
                     attrs[a] = v
             else:
                 attrs[pk] = pos
+        if op.get("bogus_attrs") and self.with_seg and pixels is not None:
+            # a client may pass managed measurements along with the pixels; the stored
+            # values must still be those of the mask (C08)
+            attrs["area"] = 999.0
+            attrs[tr.features.position_key if isinstance(tr.features.position_key, str) else "pos"] = [0.0] * len(self.fshape)
         force = bool(op.get("force"))
         # model: effective track, neighbours in it (scan), allowed removals
         eff_tid = tid
@@ -1164,15 +1169,19 @@ class Sim:
         if op.get("order") == "rev":
             updated.reverse()
         saved = fr.copy()
-        saved2 = None
-        if op.get("invalid") == "two_frames" and self.T > 1 and value != 0:
-            # invalid request: one stroke spanning two frames (the library documents one
-            # time point per update); the second frame's group is appended last
-            t2 = (t + 1) % self.T
+        extra_frames = []  # (frame index, mask, saved copy) of further frames of this stroke
+        two_frames_invalid = op.get("invalid") == "two_frames" and self.T > 1 and value != 0
+        n_more = 1 if two_frames_invalid else (op.get("frames", 1) - 1 if value == 0 else 0)
+        for k in range(n_more):
+            # a stroke spanning several frames: legal for an erase (background), an
+            # invalid request for a label (the library documents one time point per update)
+            t2 = (t + 1 + k) % self.T
+            if t2 == t or any(t2 == e[0] for e in extra_frames):
+                break
             fr2 = seg[t2]
             mask2 = mask & (fr2 != value)
             if mask2.any():
-                saved2 = (t2, mask2, fr2.copy())
+                extra_frames.append((t2, mask2, fr2.copy()))
                 for old in [int(x) for x in np.unique(fr2[mask2]).tolist()]:
                     idx = np.nonzero(mask2 & (fr2 == old))
                     updated.append(((np.full(len(idx[0]), t2), *idx), old))
@@ -1205,11 +1214,14 @@ class Sim:
             tags.append("over_several")
         # paint first (caller side of the protocol)
         fr[mask] = value
-        if saved2 is not None:
-            seg[saved2[0]][saved2[1]] = value
-            tags.append("invalid_two_frames")
+        for t2, mask2, _ in extra_frames:
+            seg[t2][mask2] = value
+        if extra_frames:
+            tags.append("invalid_two_frames" if two_frames_invalid else "multi_frame_erase")
         painted = seg.copy()
         named_nodes = {value} | set(part) | set(erased_all)
+        for t2, mask2, saved_fr2 in extra_frames:
+            named_nodes |= {int(x) for x in np.unique(saved_fr2[mask2]).tolist()}
         named_nodes.discard(0)
         trk = tr.features.tracklet_key
         named_tracks = {tid} if vmode == "new" else set()
@@ -1223,8 +1235,8 @@ class Sim:
         if out["cls"] != "accepted":
             # caller restores the painted pixels
             fr[mask] = saved[mask]
-            if saved2 is not None:
-                seg[saved2[0]][saved2[1]] = saved2[2][saved2[1]]
+            for t2, mask2, saved_fr2 in extra_frames:
+                seg[t2][mask2] = saved_fr2[mask2]
             if part or erased_all:
                 self.count("pt_refused_after_overwrite")
         else:
